@@ -13,6 +13,9 @@ import (
 	"sync/atomic"
 	"time"
 
+	"github.com/DrmagicE/gmqtt/config"
+
+	"verif/harness/broker"
 	"verif/harness/fed"
 	"verif/harness/monitor"
 	"verif/harness/mqttx"
@@ -541,7 +544,160 @@ func run(t *triple, sc *Scenario) (fs []finding, obs map[string]int, rerr error)
 }
 
 // Run is the entry point.
+// RedisCfgFault (set by the registration code) switches a configuration to the redis back end on a private fake
+// redis and returns arm(cmd, key): redis refuses the next such command with an error reply.
+var RedisCfgFault func(c *config.Config) (cleanup func(), arm func(cmd, key string), err error)
+
+// storeFailsWhileSessionEnds: node B keeps its sessions in redis. The only subscriber of a topic on B ends its
+// session (clean-session DISCONNECT, TerminateSession, take-over with clean start) at a moment when redis refuses
+// one of the clean-up commands. The subscription is gone all the same - so, once things had every chance to
+// propagate, node A no longer counts B among the nodes that need the topic and forwards nothing to it.
+func storeFailsWhileSessionEnds(r *monitor.Run) {
+	if RedisCfgFault == nil {
+		return
+	}
+	id := atomic.AddInt64(&scenarioSeq, 1)
+	a, err := fed.Start(fmt.Sprintf("c17f%dA", id), nil, false, nil)
+	if err != nil {
+		r.Inconclusive("store-fault pair: " + err.Error())
+		return
+	}
+	defer a.Stop()
+	var cleanup func()
+	var arm func(cmd, key string)
+	b, err := fed.Start(fmt.Sprintf("c17f%dB", id), []string{a.Gossip}, false, func(c *config.Config) {
+		cleanup, arm, _ = RedisCfgFault(c)
+	})
+	if err != nil || arm == nil {
+		r.Inconclusive(fmt.Sprintf("store-fault pair: %v", err))
+		return
+	}
+	defer func() { b.Stop(); cleanup() }()
+	if !fed.WaitView(a, b, settle) || !fed.WaitView(b, a, settle) {
+		r.Inconclusive("store-fault pair: federation not established")
+		return
+	}
+	pub, err := wire.Dial("sf-pub", a.B.Addr, mqttx.V5)
+	if err != nil {
+		r.Inconclusive(err.Error())
+		return
+	}
+	defer pub.Close()
+	if _, err := pub.Connect(&mqttx.Packet{ClientID: "sf-pub", CleanStart: true}, step); err != nil {
+		r.Inconclusive(err.Error())
+		return
+	}
+	type variant struct{ end, cmd, keyPrefix string }
+	vs := []variant{{"disconnect", "DEL", "session:"}, {"disconnect", "DEL", "queue:"}, {"terminate", "DEL", "session:"}, {"takeover_clean", "DEL", "session:"}, {"disconnect", "DEL", "sub:"}}
+	for vi, v := range vs[:r.Pick(3, 5)] {
+		cid := fmt.Sprintf("sf-gone-%d", vi)
+		topic := fmt.Sprintf("sf/%d/t", vi)
+		sub, err := wire.Dial(cid, b.B.Addr, mqttx.V311)
+		if err != nil {
+			r.Inconclusive(err.Error())
+			return
+		}
+		if _, err := sub.Connect(&mqttx.Packet{ClientID: cid, CleanStart: true}, step); err != nil {
+			r.Inconclusive(err.Error())
+			return
+		}
+		filter := topic
+		if vi%2 == 1 {
+			filter = "$share/sfg/" + topic
+		}
+		if _, err := sub.Subscribe([]mqttx.Sub{{Filter: filter, QoS: 1}}, 0, step); err != nil {
+			r.Inconclusive(err.Error())
+			return
+		}
+		r.Eval(1)
+		if !fed.WaitView(a, b, settle) {
+			r.Violation("store_fault.view_before", fmt.Sprintf("A's view of B %v never became B's subscriptions %v", a.F.VerifFedView(b.Name), fed.ActualTopics(b)), nil)
+			return
+		}
+		if _, err := pub.Publish(&mqttx.Packet{Topic: topic, QoS: 1, Payload: []byte("before-" + cid)}, step); err != nil {
+			r.Inconclusive(err.Error())
+			return
+		}
+		if err := sub.WaitPayload("before-"+cid, step); err != nil {
+			r.Violation("store_fault.delivery_before", "the remote subscriber did not get the message published on the other node: "+err.Error(), nil)
+			return
+		}
+		from := b.B.Log.Len()
+		arm(v.cmd, v.keyPrefix+cid)
+		switch v.end {
+		case "disconnect":
+			sub.Disconnect(0, nil)
+		case "terminate":
+			b.B.Srv.ClientService().TerminateSession(cid)
+		case "takeover_clean":
+			sub2, err := wire.Dial(cid, b.B.Addr, mqttx.V311)
+			if err == nil {
+				_, _ = sub2.Connect(&mqttx.Packet{ClientID: cid, CleanStart: true}, step)
+				defer sub2.Close()
+			}
+		}
+		if _, ok := b.B.Log.Wait(from, func(e broker.Event) bool { return e.Kind == "OnClosed" && e.Client == cid }, step); !ok {
+			r.Inconclusive("store-fault: end of the connection not observed")
+			return
+		}
+		sub.Close()
+		r.Count("sessions_ended_while_the_store_refused_a_command", 1)
+		// ground truth: nobody on B is subscribed to the topic any more
+		stillThere := true
+		for dl := time.Now().Add(3 * time.Second); stillThere && time.Now().Before(dl); time.Sleep(5 * time.Millisecond) {
+			stillThere = false
+			for _, tpc := range fed.ActualTopics(b) {
+				if strings.HasSuffix(tpc, "|"+topic) {
+					stillThere = true
+				}
+			}
+		}
+		if stillThere {
+			// the subscription survived the failed clean-up: then forwarding is still right; nothing to decide here
+			r.Count("store_fault_subscription_survived", 1)
+			continue
+		}
+		kind := fmt.Sprintf("end=%s:refused=%s%s:shared=%v", v.end, v.cmd, v.keyPrefix, vi%2 == 1)
+		if !fed.WaitView(a, b, settle) {
+			r.Violation("store_fault.stale_view:"+kind, fmt.Sprintf("the last subscriber of %s on node B is gone (subscription store of B: %v) but, %v later, B still announces %v and A still believes B needs %v", topic, fed.ActualTopics(b), settle, b.F.VerifLocalTopics(), a.F.VerifFedView(b.Name)), nil)
+		}
+		before := len(fed.AppliedBy(b.Name, a.Name))
+		if _, err := pub.Publish(&mqttx.Packet{Topic: topic, QoS: 1, Payload: []byte("after-" + cid)}, step); err != nil {
+			r.Inconclusive(err.Error())
+			return
+		}
+		// barrier: a message B does need, sent after it on the same stream
+		bar, err := wire.Dial("sf-bar", b.B.Addr, mqttx.V311)
+		if err != nil {
+			r.Inconclusive(err.Error())
+			return
+		}
+		_, _ = bar.Connect(&mqttx.Packet{ClientID: "sf-bar", CleanStart: true}, step)
+		if _, err := bar.Subscribe([]mqttx.Sub{{Filter: "sf/barrier", QoS: 1}}, 0, step); err != nil {
+			r.Inconclusive(err.Error())
+			return
+		}
+		if !fed.WaitView(a, b, settle) && !stillThere {
+			// already reported above; the barrier below still works through the stale entry
+		}
+		_, _ = pub.Publish(&mqttx.Packet{Topic: "sf/barrier", QoS: 1, Payload: []byte(fmt.Sprintf("barrier-%d", vi))}, step)
+		if err := bar.WaitPayload(fmt.Sprintf("barrier-%d", vi), step); err != nil {
+			r.Inconclusive("store-fault: barrier message not delivered: " + err.Error())
+			bar.Close()
+			return
+		}
+		bar.Disconnect(0, nil)
+		for _, ev := range fed.AppliedBy(b.Name, a.Name)[before:] {
+			if ev.Kind == "msg" && ev.Payload == "after-"+cid {
+				r.Violation("store_fault.forwarded_to_node_without_subscription:"+kind, fmt.Sprintf("message %q on %s was forwarded to node B, which has no matching subscription (its last subscriber's session ended while the store refused %s %s%s)", ev.Payload, topic, v.cmd, v.keyPrefix, cid), nil)
+			}
+		}
+		r.Nontrivial("store-fault|" + kind)
+	}
+}
+
 func Run(r *monitor.Run) {
+	storeFailsWhileSessionEnds(r)
 	n := r.Pick(16, 400)
 	rng := r.Rand("scenarios")
 	scs := make([]Scenario, n)
